@@ -415,6 +415,13 @@ class MarkdownNormalizer(Renderer):
                 # within a quote block it would be the secondary prefix, like `> `.
                 result += self._second_prefix.strip() + "\n"
 
+        if not element.children:
+            # An empty item still needs its marker, otherwise the item disappears (and the
+            # numbering of an ordered list shifts).
+            result += self._prefix.rstrip() + "\n"
+            self._prefix = self._second_prefix
+            return result
+
         result += self.render_children(element)
 
         return result
